@@ -5,7 +5,8 @@
    results pulled.  LEVEL: partial -- the property is about WHEN CPython runs user code; these theorems bound the demand
    of the MODEL, the event-for-event comparison of harness/c10.py is what connects the model to CPython's generators. *)
 From Coq Require Import List ZArith Bool Arith.
-From Krrood Require Import Base.Sx Eql.Syntax Eql.Sat Eql.Eval Eql.ShowSpec Eql.TraceSpec Eql.Trace Eql.TraceProofs Eql.TraceDemand.
+From Krrood Require Import Base.Sx Eql.Syntax Eql.Sat Eql.Eval Eql.ShowSpec Eql.TraceSpec Eql.Trace Eql.TraceProofs Eql.TraceDemand
+  Eql.TraceAhead Eql.TraceReeval.
 Import ListNotations.
 Open Scope nat_scope.
 
@@ -58,6 +59,28 @@ Proof.
   intros W D steps more x q1 n q2 m.
   split; [apply trace_seq_pulls_in_order | split; [apply trace_seq_prefix | split; [apply trace_seq_single | apply trace_seq_rows2]]].
 Qed.
+
+(* no read-ahead: for a variable that the query uses only below attributes and that the selection does not enumerate, and
+   that either no for_all quantifies ([attr_only_strict]) or one does, the comparison evaluated first in that for_all's
+   body reads it, and no variable of the condition has an empty domain ([attr_only_len]) -- decidable classes --, every
+   element pulled out of its generator has one of its attributes read (or is handed out in a row) before the next element
+   is pulled, before the generator is finished, and before the log ends; in the n-stopped run for every n and in the
+   full run.  [examined_scan] is the scan the harness runs on the real engine's logs.  For a for_all variable this says
+   that the universal domain is pulled only as long as candidates are left to refute. *)
+Theorem C10_no_read_ahead : forall W D q n x, attr_only_strict q x = true \/ attr_only_len D q x = true ->
+  examined_scan D x None (trace_k W D q n) = true /\ examined_scan D x None (trace_full W D q) = true.
+Proof.
+  intros W D q n x [H|H]; split;
+    [apply trace_k_examined | apply trace_full_examined | apply trace_k_examined_len | apply trace_full_examined_len]; exact H.
+Qed.
+
+(* a repeated evaluation that needs only what is cached touches no generator: after n results were pulled from a query
+   (without exists) and the iterator was abandoned, pulling m <= n results from a fresh evaluation of the same query pulls
+   no element and finishes no generator *)
+Theorem C10_reeval_quiet : forall W D q n m x, exists_free_o (q_cond q) = true -> m <= n ->
+  npulls x (trace_seq W D [(q, n); (q, m)]) = npulls x (trace_seq W D [(q, n)]) /\
+  ended x (trace_seq W D [(q, n); (q, m)]) = ended x (trace_seq W D [(q, n)]).
+Proof. exact reeval_quiet. Qed.
 
 (* the executable Spec the harness evaluates on the REAL engine's logs decides exactly these predicates *)
 Theorem C10_spec_exec : forall t a b x,
@@ -162,6 +185,8 @@ Print Assumptions C10_prefix_trace.
 Print Assumptions C10_pulls_prefix.
 Print Assumptions C10_demand.
 Print Assumptions C10_reeval.
+Print Assumptions C10_no_read_ahead.
+Print Assumptions C10_reeval_quiet.
 Print Assumptions C10_spec_exec.
 Print Assumptions C10_fixed_product.
 Print Assumptions C10_fixed_product_unbound.
